@@ -195,7 +195,7 @@ func genH3(rng *hk.Rand, shape string, round int) *h3Gen {
 	body := wire.GenBody(rng, L)
 	// interim responses in front of the final one, some declaring a length of their own
 	if shape != "no-headers" {
-		for x, n := 0, []int{0, 1, 0, 2, 0, 5}[round%6]; x < n; x++ {
+		for x, n := 0, []int{0, 1, 0, 2, 0, 5, 6}[round%7]; x < n; x++ {
 			blk := []wire.Field{{Name: ":status", Value: []string{"103", "102", "100"}[(x+round)%3]}, {Name: "link", Value: "</s.css>; rel=preload"}}
 			if (round+x)%2 == 0 {
 				blk = append(blk, wire.Field{Name: "content-length", Value: fmt.Sprint(1 + (round+x)%7)})
@@ -451,7 +451,12 @@ func runH3(r *hk.Run, rng *hk.Rand) {
 		// the honest limit: without a declared length the FIN is the only end marker, so a FIN
 		// between two frames cannot be told from the end of the message
 		undetectable := headers && g.cl < 0 && g.end == "fin" && g.atBoundary && g.shape != "data-after-trailers"
+		tooMany := len(g.interim) > 5 // the client gives up at the sixth interim response (model: the call fails)
+		if tooMany {
+			r.Count("h3.too-many-interim-responses")
+		}
 		switch {
+		case tooMany:
 		case o.Panic != "" || o.Hung:
 			r.Fail(hk.Failure{Sig: "h3:panic-or-hang:" + sig, What: "exchange panicked or hung", Input: in, Got: o})
 		case success && !consistent && !undetectable:
